@@ -210,12 +210,14 @@ func (e *Effects) step(fn *ssa.Function, s *fnState, sum *Summary, ins ssa.Instr
 			if isRefType(x.Val.Type()) {
 				vr = s.roots[x.Val]
 			}
-			loc, ct := locOf(x.Addr)
-			if isRefType(x.Val.Type()) {
-				s.storeRegion(s.roots[x.Addr], loc, s.roots[x.Val], s.cells[x.Val])
-			}
 			e.vtypes[typeStr(x.Val.Type())] = x.Val.Type()
-			e.emit(fn, s, s.roots[x.Addr], loc, ct, x.Pos(), where, "", vr, typeStr(x.Val.Type()))
+			for _, lc := range locsOf(x.Addr, 0) {
+				loc, ct := lc[0], lc[1]
+				if isRefType(x.Val.Type()) {
+					s.storeRegion(s.roots[x.Addr], loc, s.roots[x.Val], s.cells[x.Val])
+				}
+				e.emit(fn, s, s.roots[x.Addr], loc, ct, x.Pos(), where, "", vr, typeStr(x.Val.Type()))
+			}
 		}
 	case *ssa.MapUpdate:
 		all := strset{}
